@@ -163,8 +163,7 @@ def execute(task, package_dir):
                "error": result.error, "variant": task["variant"], "resolved_task": dict(task)}
     try:
         if result.status == "crash":
-            summary["violations"].append({"property": ID, "oracle": "crash", "step": result.events,
-                                          "detail": {"traceback": (result.error or "")[-2500:]}})
+            summary["violations"].append(common.crash_violation(ID, result))
             return summary
         if result.status != "ok":
             return summary
